@@ -6,15 +6,22 @@ import IbModel.Proofs.Pipeline
 Model: `Model/Pipeline.lean` (the shared graph behind `Arc<Mutex<..>>`, atomic steps at LOCK granularity,
 builders and `collect` as step sequences, threads as programs, `run` = execute a schedule).
 Everything below is for EVERY node payload type `N`, EVERY list of thread programs (any number of threads,
-any operations: new source / derive / join / collect), and EVERY schedule (= interleaving), by induction —
-no bound.
+any operations: new source / derive — `map`, `filter`, `group_by_key`, `combine_values`, `combine_values_lifted`,
+`combine_globally`, … : every builder that is one `insert_node` + one `connect` — / join of any of the four
+kinds / collect / `set_metrics` / `take_metrics`), and EVERY schedule (= interleaving), by induction — no bound.
 
 A handle is *published* (`x ∈ c.pool`) from the moment its builder has returned (for `derive`/`join`: after the
 `connect`; for `from_vec`: after the `insert_node`). Before that nobody but the building thread knows the id
 (`PC.resv`), so a collect or derive racing with the builder's own insert/connect cannot be written.
 
-`build_runs_no_user_code` holds by construction: `step` is not even parameterised by the execution function;
-user closures are only applied to the chain a `collect` returns (`Outcome.collected`), see `collect_result_pure`.
+**Laziness** is stated on an explicit trace: every thread carries `calls`, the list of chains whose user
+functions (closures, `CombineFn`s) it has run. `build_step_runs_no_user_code`: every atomic step other than
+the last step of a `collect` — i.e. every step of every builder, of `set_metrics`/`take_metrics`, and the
+first steps of a collect — leaves EVERY thread's trace unchanged. `calls_are_collects`: the trace is exactly
+the chains of the finished collects. `lazy_until_collect`: it is empty as long as no collect has finished;
+`build_only_programs_run_no_user_code`: programs without a collect never run user code, under any schedule.
+`calls_only_own_lineage`: every run is a run of the BORN lineage of the collected handle — no collect runs
+a closure of another branch.
 -/
 namespace IB.Graph
 variable {N : Type}
@@ -146,10 +153,10 @@ theorem collect_chain_exists (kit : Kit N) {c : Cfg N} (h : Reachable kit c) (j 
     (read by two separate snapshots while other threads keep building) are the chains its operands were
     born with. -/
 theorem join_reads_birth_lineage (kit : Kit N) {c : Cfg N} (h : Reachable kit c) (j : Nat) (th : Thread N)
-    (hj : c.threads[j]? = some th) (d : Nat) (lc rc : List N) (hpc : th.pc = .joinInsG d lc rc) :
+    (hj : c.threads[j]? = some th) (d tag : Nat) (lc rc : List N) (hpc : th.pc = .joinInsG d tag lc rc) :
     ∃ l r, (l, some lc) ∈ c.born ∧ (r, some rc) ∈ c.born := by
   rcases h with ⟨progs, sched, rfl⟩
-  exact (ginv_run kit sched _ (inv_init progs) (ginv_init progs)).pcJoin j th hj lc rc (Or.inr ⟨d, hpc⟩)
+  exact (ginv_run kit sched _ (inv_init progs) (ginv_init progs)).pcJoin j th hj tag lc rc (Or.inr ⟨d, hpc⟩)
 
 /-- **Immutable, append-only**: whatever any thread does, the node list and the edge list only grow at the
     end — no node (in particular no source payload) is ever removed, replaced or consumed, no edge changed. -/
@@ -167,6 +174,94 @@ theorem graph_append_only (kit : Kit N) (sched : List Nat) :
       rw [h3]; simp only [Cfg.abs] at h1; rw [h1, List.append_assoc]
     · show (run kit (step kit c i) rest).g.edges = _
       rw [h4]; simp only [Cfg.abs] at h2; rw [h2, List.append_assoc]
+
+
+/-! ## laziness: building runs no user code -/
+
+/-- **Building runs none of the user's functions (step form)**: an atomic step of thread `i` that is not the
+    last step of a collect (so: every step of `from_vec`, of every derive incl. the barrier builders, of every
+    join, of `set_metrics`/`take_metrics`, `begin`, and a collect's `record_metrics_start`/`build_plan`)
+    leaves the trace of user-code runs of EVERY thread unchanged. -/
+theorem build_step_runs_no_user_code (kit : Kit N) (c : Cfg N) (i : Nat)
+    (hb : ∀ th, c.threads[i]? = some th → ∀ x ch, th.pc ≠ .colEnd x ch) :
+    (step kit c i).threads.map Thread.calls = c.threads.map Thread.calls ∧ (step kit c i).calls = c.calls := by
+  have h1 : (step kit c i).threads.map Thread.calls = c.threads.map Thread.calls := by
+    cases hth : c.threads[i]? with
+    | none => simp only [step, hth]
+    | some th =>
+      rw [step_threads kit c i th hth, List.map_set, stepTh_calls_build kit c th (hb th hth)]
+      exact set_same _ _ _ (by simp [List.getElem?_map, hth])
+  refine ⟨h1, ?_⟩
+  simp only [Cfg.calls, List.flatMap_def, h1]
+
+/-- the only step that extends a trace: the end of a collect appends the chain that collect planned -/
+theorem collect_end_runs_its_chain (kit : Kit N) (c : Cfg N) (i : Nat) (th : Thread N)
+    (hi : c.threads[i]? = some th) (x : Nat) (ch : Option (List N)) (hpc : th.pc = .colEnd x ch) :
+    ∃ th', (step kit c i).threads[i]? = some th' ∧ th'.calls = th.calls ++ ch.toList := by
+  refine ⟨(stepTh kit c th).2, ?_, ?_⟩
+  · rw [step_threads kit c i th hi]
+    have hlt : i < c.threads.length := by
+      rcases Nat.lt_or_ge i c.threads.length with h1 | h1
+      · exact h1
+      · rw [List.getElem?_eq_none h1] at hi; cases hi
+    simp [hlt]
+  · simp [stepTh, hpc, Thread.finish]
+
+/-- **The trace is exactly the finished collects**: in every reachable configuration each thread's trace is
+    the list of the chains of its `collected` outcomes, in order (`Outcome.ran`). -/
+theorem calls_are_collects (kit : Kit N) {c : Cfg N} (h : Reachable kit c) (j : Nat) (th : Thread N)
+    (hj : c.threads[j]? = some th) : th.calls = th.outs.flatMap Outcome.ran := by
+  rcases h with ⟨progs, sched, rfl⟩
+  exact cinv_run kit sched _ (cinv_init progs) j th hj
+
+/-- **Lazy until a collect**: as long as no collect has finished, no user function has been called. -/
+theorem lazy_until_collect (kit : Kit N) {c : Cfg N} (h : Reachable kit c)
+    (hn : ∀ (j : Nat) (th : Thread N), c.threads[j]? = some th → ∀ x ch, Outcome.collected x ch ∉ th.outs) :
+    c.calls = [] := by
+  simp only [Cfg.calls, List.flatMap_eq_nil_iff]
+  intro th hth
+  rcases List.getElem?_of_mem hth with ⟨j, hj⟩
+  rw [calls_are_collects kit h j th hj, List.flatMap_eq_nil_iff]
+  intro o ho
+  cases o with
+  | collected x ch => exact absurd ho (hn j th hj x ch)
+  | _ => rfl
+
+/-- **Programs that only build never run user code**, under any schedule, with any number of threads. -/
+theorem build_only_programs_run_no_user_code (kit : Kit N) (progs : List (List (Op N))) (sched : List Nat)
+    (hp : ∀ p ∈ progs, ∀ op ∈ p, Op.isCollect op = false) :
+    (run kit (Cfg.init progs) sched).calls = [] := by
+  have h0 : ∀ th ∈ (Cfg.init progs).threads, NoCol th := by
+    intro th hth
+    simp only [Cfg.init, List.mem_map] at hth
+    rcases hth with ⟨p, hpm, rfl⟩
+    exact ⟨hp p hpm, rfl, rfl⟩
+  have := nocol_run kit sched _ h0
+  simp only [Cfg.calls, List.flatMap_eq_nil_iff]
+  exact fun th hth => (this th hth).calls
+
+/-- **No interference through user code**: every run any thread ever made is a run of the chain the collected
+    handle was BORN with — a collect never runs a closure of a sibling branch or of anything built later. -/
+theorem calls_only_own_lineage (kit : Kit N) {c : Cfg N} (h : Reachable kit c) (j : Nat) (th : Thread N)
+    (hj : c.threads[j]? = some th) (ch : List N) (hc : ch ∈ th.calls) :
+    ∃ x, Outcome.collected x (some ch) ∈ th.outs ∧ (x, some ch) ∈ c.born := by
+  rw [calls_are_collects kit h j th hj, List.mem_flatMap] at hc
+  rcases hc with ⟨o, ho, hm⟩
+  cases o with
+  | collected x och =>
+    cases och with
+    | none => simp [Outcome.ran] at hm
+    | some l =>
+      simp [Outcome.ran] at hm
+      subst hm
+      exact ⟨x, ho, collect_reads_birth_lineage kit h j th hj x _ ho⟩
+  | _ => simp [Outcome.ran] at hm
+
+/-- `set_metrics` / `take_metrics` racing with anything: they never touch the graph, the pool or a lineage -/
+theorem metrics_ops_leave_graph (kit : Kit N) (c : Cfg N) (i : Nat) (th : Thread N)
+    (hi : c.threads[i]? = some th) (hpc : th.pc = .metSet ∨ th.pc = .metTake) :
+    (step kit c i).g = c.g ∧ (step kit c i).pool = c.pool ∧ (step kit c i).born = c.born := by
+  rcases hpc with hpc | hpc <;> simp [step, hi, stepTh, hpc]
 
 /-! ## a collection's lineage is structural: it is fixed by the builder call that made it
 
@@ -212,10 +307,10 @@ theorem lineage_of_source (kit : Kit N) {c : Cfg N} (h : Reachable kit c) (i : N
   simp only [Cfg.abs] at this
   omega
 
-/-- `map`/`filter`/…: when the builder's `connect` happens — however long after its `insert`, whatever other
+/-- `map`/`filter`/`group_by_key`/`combine_values`/`combine_globally`/…: when the builder's `connect` happens — however long after its `insert`, whatever other
     threads did in between — the new collection's lineage is the parent's lineage followed by the new node -/
 theorem lineage_of_derive (kit : Kit N) {c : Cfg N} (h : Reachable kit c) (i : Nat) (th : Thread N)
-    (hi : c.threads[i]? = some th) (p m : Nat) (hpc : th.pc = .drvCon p m) :
+    (hi : c.threads[i]? = some th) (p m k : Nat) (hpc : th.pc = .drvCon p m k) :
     ∃ n, lookupNode c.g.nodes m = some n ∧
       backwalk (step kit c i).g m = (backwalk c.g p).map (· ++ [n]) := by
   have inv := inv_reachable kit h
@@ -276,14 +371,14 @@ theorem racy_insert_loses_a_node :
 /-! ## non-vacuity: a concrete history (2 worker threads interleaved with a prefix thread) -/
 
 /-- payload: a number (source seed / op code); dummy = 0; cogroup = 1000 + sum of both chains -/
-def demoKit : Kit Nat := ⟨0, fun l r => 1000 + l.sum + r.sum⟩
+def demoKit : Kit Nat := ⟨0, fun tag l r => 1000 + tag + l.sum + r.sum⟩
 
 /-- thread 0 builds a source and a derived collection; thread 1 derives from the source and collects it;
     thread 2 joins the two oldest handles and collects the oldest handle again -/
 def demoProgs : List (List (Op Nat)) :=
-  [[.source 7, .derive (.front 0) 10],
-   [.derive (.front 0) 20, .collect (.mine 0), .collect (.front 0)],
-   [.join (.front 0) (.front 1), .collect (.front 0), .collect (.back 0)]]
+  [[.source 7, .derive (.front 0) none 10],
+   [.derive (.front 0) (some (0, 0)) 20, .collect (.mine 0), .collect (.front 0)],
+   [.join (.front 0) (.front 1) 0, .collect (.front 0), .collect (.back 0)]]
 
 def demoSched : List Nat :=
   [0, 0, 0, 0, 0,  1, 2, 1, 2, 2, 1, 2, 1, 2, 1, 2, 1, 1, 2, 2, 1, 2, 1, 2, 2, 2, 1, 1, 2, 2, 2]
@@ -304,15 +399,51 @@ example : (demoFinal.threads.map (fun t => t.outs.filterMap (fun o =>
 
 example : Reachable demoKit demoFinal := ⟨demoProgs, demoSched, rfl⟩
 
+/-- witness (laziness): after the five build steps of thread 0 and while both workers are still building
+    (thread 1 between `insert` and `connect`, thread 2 before its `connect`) nobody has run user code; at the end
+    the traces are exactly the chains of the four collects -/
+example : (run demoKit (Cfg.init demoProgs) [0, 0, 0, 0, 0, 1, 1, 2, 2, 2, 2, 2]).calls = [] ∧
+    demoFinal.threads.map Thread.calls = [[], [[7, 20], [7]], [[7], [0, 1024]]] := by decide
+
+/-- witness: a program with a typed derive that cannot resolve (class 2 = grouped, none exists) is skipped;
+    `take_metrics` answers whether a collector was installed -/
+example : ((run demoKit (Cfg.init [[.source 1, .derive (.front 0) (some (2, 0)) 5, .takeMetrics, .setMetrics, .takeMetrics]])
+      [0, 0, 0, 0, 0, 0, 0, 0, 0]).threads.map (fun t => t.outs.map (fun o =>
+        match o with | .built id => id + 10 | .skipped => 1 | .metricsSet => 2 | .metricsTaken b => if b then 3 else 4 | _ => 0))) =
+    [[10, 1, 4, 2, 3]] := by decide
+
 /-- witness for the hypotheses of `lineage_of_derive` / `lineage_of_join` / `reserved_is_private`: a reachable
     configuration in which thread 1 sits between its `insert` (id 2) and its `connect(0,2)` while thread 2,
     having inserted ids 3 and 4 in the meantime, sits before its `connect(3,4)` -/
 def demoMid : Cfg Nat := run demoKit (Cfg.init demoProgs) [0, 0, 0, 0, 0, 1, 1, 2, 2, 2, 2, 2]
 
 example : (demoMid.threads.map (fun t => match t.pc with
-      | .drvCon p m => some (p, m) | .joinCon d g => some (d, g) | _ => none)) =
+      | .drvCon p m _ => some (p, m) | .joinCon d g => some (d, g) | _ => none)) =
     [none, some (0, 2), some (3, 4)] ∧ demoMid.pool = [0, 1] ∧ demoMid.g.nextId = 5 := by decide
 
 example : Reachable demoKit demoMid := ⟨demoProgs, _, rfl⟩
+
+/-- witnesses for the hypotheses of the laziness theorems: (a) `demoMid` is a reachable configuration in which
+    nobody has finished a collect (`lazy_until_collect`) and no thread sits at the end of a collect
+    (`build_step_runs_no_user_code` applies to every thread); (b) a thread sitting at the end of a collect
+    (`collect_end_runs_its_chain`) and the trace after that step; (c) a program without collects
+    (`build_only_programs_run_no_user_code`) that builds a source, two barriers and a join; (d) a thread about
+    to `set_metrics` (`metrics_ops_leave_graph`) -/
+example : (demoMid.threads.all (fun t => t.outs.all (fun o => match o with | .collected _ _ => false | _ => true))) = true ∧
+    (demoMid.threads.all (fun t => match t.pc with | .colEnd _ _ => false | _ => true)) = true := by decide
+
+example : ((run demoKit (Cfg.init [[.source 7, .collect (.front 0)]]) [0, 0, 0, 0, 0]).threads.map (fun t =>
+      match t.pc with | .colEnd x ch => some (x, ch) | _ => none)) = [some (0, some [7])] ∧
+    (run demoKit (Cfg.init [[.source 7, .collect (.front 0)]]) [0, 0, 0, 0, 0, 0]).calls = [[7]] := by decide
+
+def demoBuildOnly : List (List (Op Nat)) :=
+  [[.source 7, .derive (.front 0) (some (0, 2)) 30, .derive (.back 0) (some (2, 0)) 40, .setMetrics],
+   [.derive (.front 0) (some (0, 0)) 50, .join (.front 0) (.mine 0) 3, .takeMetrics]]
+
+example : (demoBuildOnly.all (fun p => p.all (fun op => !Op.isCollect op))) = true ∧
+    (run demoKit (Cfg.init demoBuildOnly) [0, 0, 1, 0, 1, 0, 1, 0, 1, 1, 0, 1, 0, 1, 0, 1, 1, 1, 1]).g.nextId = 6 := by decide
+
+example : ((run demoKit (Cfg.init demoBuildOnly) [0, 0, 0, 0, 0, 0, 0, 0, 0]).threads.map (fun t =>
+      match t.pc with | .metSet => true | _ => false)) = [true, false] := by decide
 
 end IB.Graph
